@@ -68,6 +68,13 @@ _PARSE = [(r'm_parts\.clear\(\);', 'm_parts.n = 0;', 1),
           (r'for \(const auto &it : m_parts\) \{', 'for (size_t pi = 0; pi < m_parts.n; pi++) {\n      const struct part* it = &m_parts.e[pi];', 1),
           (r'\bit\.second\b', 'it->second', (2, 8))]
 
+MQTT_CPP = 'src/ebusd/mqtthandler.cpp'
+# head of MqttHandler::notifyMqttTopic (fragment, R16): split of the received topic into the template part and the direction suffix
+_NOTIFY = [(r"size_t pos = topic\.rfind\('/'\);", "vstr topic = *topic_p; *accepted_p = 0;\n  size_t pos = vstr_rfind_char(&topic, '/');", 1),
+           (r'if \(!m_subscribeConfigRestartTopic\.empty\(\).*?return;\s*\}', 'if (env_is_restart_topic(&topic)) {\n    return;\n  }', 1),
+           (r'string args;', 'vstr args = vstr_new();', 1),
+           (r'(\w+) (==|!=) "(\w+)"', lambda m: '%svstr_eq_cstr(&%s, "%s")' % ('!' if m.group(2) == '!=' else '', m.group(1), m.group(3)), (3, 6))]
+
 UNIT = dict(
     replay=_replay,
     trusted=['std::string / ostringstream are bounded value models (capacity per run, stated as bound); the parts vector is a fixed-capacity array; the values map is indexed by the known field index of a part (the name/index consistency established by StringReplacer::makeField is assumed)'],
@@ -90,6 +97,12 @@ UNIT = dict(
         dict(file=SH_CPP, name='StringReplacer::get', sig='const string& circuit, const string& name', cname='SR_get3', self='struct StringReplacer', ret='vstr',
              params_c=['const vstr* circuit', 'const vstr* name', 'const vstr* fieldName'], pre_subs=_GET3,
              cfg=dict(methods={'empty': 'vstr_empty'}, text_subs=[(r'vstr_empty\(&fieldName\)', 'vstr_empty(fieldName)')])),
+        dict(file=MQTT_CPP, name='MqttHandler::notifyMqttTopic', cname='Mqtt_splitTopic', self=None, ret='void',
+             params_c=['const vstr* topic_p', 'vstr* matchTopic_p', 'vstr* args_p', '_Bool* isWrite_p', '_Bool* isList_p', '_Bool* accepted_p'],
+             fragment=dict(start=r"size_t pos = topic\.rfind\('/'\);", end=r'logOtherDebug\("mqtt", "received topic',
+                           tail=' *matchTopic_p = matchTopic; *args_p = args; *isWrite_p = isWrite; *isList_p = isList; *accepted_p = 1; return; '),
+             pre_subs=_NOTIFY,
+             cfg=dict(methods={'empty': 'vstr_empty', 'substr': 'vstr_substr', 'find': 'vstr_find_char'}, defaults={'vstr_substr': (3, ['VSTR_NPOS']), 'vstr_find_char': (3, ['0'])})),
         dict(file=SH_CPP, name='StringReplacer::match', cname='SR_match', self='struct StringReplacer', ret='long',
              params_c=['const vstr* strIn', 'vstr* circuit', 'vstr* name', 'vstr* field', 'const vstr* separator', '_Bool ignoreCase'], pre_subs=_MATCH,
              cfg=dict(text_subs=[(r'vstr str = strIn;', 'vstr str = *strIn;')])),
@@ -109,3 +122,5 @@ R('parse', 'h_topic_parse', None, unwind=12, defines=['VSTR_CAP=7', 'PCAP=7'], c
   bounded='templates of up to 7 characters (string model capacity)')
 R('parse9', 'h_topic_parse', None, unwind=12, defines=['VSTR_CAP=9', 'PCAP=9'], cost=1500, timeout=5000, tier='thorough',
   bounded='templates of up to 9 characters (string model capacity)')
+R('split_topic', 'h_split_topic', None, unwind=12, defines=['VSTR_CAP=10', 'PCAP=5'], cost=60, timeout=1500,
+  bounded='received topics up to 10 characters (string model capacity)')
